@@ -186,8 +186,11 @@ CLAIMS['C18'] = dict(
          'running the real wrappers with a recording stand-in over a dtype/layout grid; for every kernel buffer that a caller array can alias, z3-backed '
          'symbolic execution of the kernel IR shows that no store instruction targets that buffer on any feasible path and that the kernel writes no '
          'global (hence is a function of its arguments); an aliasing pair not in the verified table is a harness error.',
-    note='Only the mechanism "caller data never reaches a kernel that writes it" is claimed. Plot helpers, pandas copies, transform methods, RNG-seeded '
-         'repeatability and Python-only functions are outside. numpy copy/view decisions are assumed to depend on dtype and layout, not on values.',
+    note='The solver-backed claim is the mechanism "caller data never reaches a kernel that writes it". The Python layer (about 80 public functions and '
+         'methods of metrics, sutils, armodels, transform, dutils, qualitycontrol, signatures, gutils, putils, boxplot, Grid and grid-level functions) is '
+         'covered by a concrete probe only: each function is called twice under the same seed with arguments whose writeable flag is cleared, over the '
+         'dtype/layout grid - an in-place write raises whatever the values, arguments are compared bit for bit, the two results must agree. numpy copy/view '
+         'decisions are assumed to depend on dtype and layout, not on values.',
     technique=TECH_A + ' + recorded alias relation', engine='llir', ref='DESIGN.md section 3, C18')
 
 PENDING = 'check not built yet in this session (planned, see DESIGN.md section 3)'
